@@ -8,9 +8,13 @@ import os
 THOROUGH_SCALE = int(os.environ.get('VERIF_THOROUGH_SCALE', '4'))
 
 
+QUICK_SCALE = float(os.environ.get('VERIF_QUICK_SCALE', '1'))
+
+
 def count(tier, quick, thorough):
-    """number of generated cases of one family: the thorough tier multiplies its base count by VERIF_THOROUGH_SCALE (default 4)"""
-    return quick if tier == 'quick' else thorough * THOROUGH_SCALE
+    """number of generated cases of one family: the quick tier multiplies its base count by VERIF_QUICK_SCALE (set per property by
+    decide.py so that every quick check stays well under a minute), the thorough tier by VERIF_THOROUGH_SCALE (default 4)"""
+    return max(1, int(quick * QUICK_SCALE)) if tier == 'quick' else thorough * THOROUGH_SCALE
 
 
 def fail(idx, msg, sig):
